@@ -5,7 +5,7 @@
    (305-423).  Constants come from the generated RM.Gen.BitflipConsts.  binary32 arithmetic
    is Flocq's. Definitions only. *)
 From Flocq Require Import IEEE754.BinarySingleNaN IEEE754.Binary IEEE754.Bits Core.
-From RM Require Export Base.Word C08.Model Gen.BitflipConsts.
+From RM Require Export Base.Word C08.Model Gen.BitflipConsts Gen.C19Check.
 Open Scope Z_scope.
 
 (* ---------------------------------------------------------------- memory map *)
@@ -68,17 +68,23 @@ Definition combine (vs : list binary32) : binary32 :=
   b32_minus mode_NE f_one
     (fold_left (fun acc v => b32_mult mode_NE acc (b32_minus mode_NE f_one v)) vs f_one).
 
+(* NEARBY_REGISTER[nearby]: the guard and the index expression are regenerated from confidence()
+   (RM.Gen.C19Check.NEARBY_GUARD / NEARBY_INDEX); usize arithmetic — a negative value is an overflow
+   panic (debug) or wraps to an out-of-range index (release), both modelled as None *)
+Definition nth_index {A} (l : list A) (i : Z) : option A :=
+  if i <? 0 then None else nth_error l (Z.to_nat i).
+
 Definition confidence (d : details) : binary32 :=
   let v0 := [f32c BASELINE_c] in
   let v1 := if d_nc d then [f32c NON_CANONICAL_c] else [] in
   let v2 := if d_null d
             then [if d_low d then b32_mult mode_NE (f32c NULL_c) (f32c ORIGINAL_LOW_c) else f32c NULL_c]
             else [] in
-  let v3 := if 0 <? d_nearby d
-            then match nth_error NEARBY_REGISTER_c
-                         (Z.to_nat (Z.min (d_nearby d) (Z.of_nat (length NEARBY_REGISTER_c)) - 1)) with
+  let v3 := if NEARBY_GUARD (d_nearby d)
+            then match nth_index NEARBY_REGISTER_c
+                         (NEARBY_INDEX (Z.of_nat (length NEARBY_REGISTER_c)) (d_nearby d)) with
                  | Some c => [f32c c]
-                 | None => []      (* index panic; unreachable, see c19_confidence_index_ok *)
+                 | None => []      (* index / usize-underflow panic; unreachable, see c19_confidence_index_ok *)
                  end
             else [] in
   let ret := combine (v0 ++ v1 ++ v2 ++ v3) in
